@@ -80,8 +80,16 @@ def gen_set(r, dots_ok):
     files = []
     used = set()
     for i in range(n):
-        d = r.choice(DIRS[: r.choice([1, 2, 4, 6])])
-        p = "%sf%d.html" % (d, i)
+        # few base names over several directories: the same relative spelling ("u.html", "../u.html") then means
+        # different files (or nothing) depending on where it is written
+        for _ in range(20):
+            d = r.choice(DIRS[: r.choice([1, 2, 4, 6])])
+            p = "%s%s.html" % (d, r.choice(["u", "v", "w", "p", "q"]))
+            if p not in used:
+                break
+        else:
+            p = "%sf%d.html" % (d, i)
+        used.add(p)
         files.append({"path": p, "refs": [], "inherit": None, "page": r.random() < 0.3, "shared": None})
     # a base template that others may inherit; it holds an inheritable namespace
     base = {"path": r.choice(["/base.html", "/d1/base.html"]), "refs": [], "inherit": None, "page": False, "base": True, "shared": None}
@@ -101,7 +109,12 @@ def gen_set(r, dots_ok):
             uri = rel_spelling(r, f["path"], tgt["path"], dots_ok)
             bad = r.random() < 0.04
             if bad:
-                uri = r.choice(["nosuch.html", "../nosuch.html", "/d1/nosuch.html"]) if dots_ok else "nosuch.html"
+                # a name that exists in OTHER directories but not where this spelling points
+                here = posixpath.dirname(f["path"])
+                cands = [b for b in ("u", "v", "w", "p", "q") if posixpath.join(here, b + ".html") not in used]
+                uri = (r.choice(cands) + ".html") if cands else "nosuch.html"
+                if dots_ok and r.random() < 0.3:
+                    uri = r.choice(["nosuch.html", "../nosuch.html", "/d1/nosuch.html"])
             f["refs"].append((kind, uri, None if bad else tgt["path"]))
         if r.random() < 0.2:
             f["refs"].append(("module", "verif_c07_mod", None))
@@ -159,7 +172,7 @@ def emit(f, files):
 
 
 def impname(path):
-    return "imp_" + posixpath.basename(path).split(".")[0]
+    return "imp" + path.split(".")[0].replace("/", "_")
 
 
 class Lookup404(Exception):
